@@ -261,12 +261,18 @@ def explore_inner(ctx):
             do_search(tparts, s_, pos, True, 'search:ternary-chained')
     peep_lists = [x[0] for x in PeepPass.delimited_regexes_to_replace]
     sample = [peep_lists[i] for i in sorted(set(rnd.sample(range(len(peep_lists)), 6 if ctx.quick() else 25)))]
-    toks = ['a', '1', '(', ')', ',', ' ', '=', '{', '}', ';', '<', '>', '+', 'x', '0']
+    toks = ['a', '1', '(', ')', ',', ' ', '=', '{', '}', ';', '<', '>', '+', 'x', '0', '\n', "'"]
     for parts in sample:
         for _ in range(60 if ctx.quick() else 400):
             s = ''.join(rnd.choice(toks) for _ in range(rnd.randint(0, 9)))
             for pos in (rnd.randint(-1, len(s) + 1), 0, len(s) - 1, len(s)):
                 do_search(parts, s, pos, False, 'search:peep')
+    # regular-expression parts are matched with DOTALL ('.' covers a newline) wherever they occur: the peep::a rules with a dot
+    dotted = [x[0] for x in PeepPass.regexes_to_replace if any(type(p_).__name__ == 'RegExPattern' and '.' in p_.expr.replace('\\.', '') for p_ in x[0])]
+    for parts in dotted:
+        for s in ("'a\nb' x", "/* it's\n 'x' */", "int argc, char\n** argv)", "'\n'", "x 'a' 'b\n'"):
+            for pos in range(-1, len(s) + 1):
+                do_search(parts, s, pos, False, 'search:peep-dot-newline')
     # random longer strings
     for _ in range(150 if ctx.quick() else 2000):
         expr, alpha = rnd.choice(kinds)
